@@ -1,5 +1,6 @@
 """C02 - a sealed generation records exactly the tree that is on disk (engine E1, model checking)"""
 import itertools
+import os
 
 from mc import engine, ref, ops
 from mc.engine import Viol
@@ -200,7 +201,9 @@ def main(tier, seed):
     else:
         plans = [dict(k=3, max_gens=3, max_edits=1, pool="p", sf2=False), dict(k=3, max_gens=2, max_edits=1, pool="p"),
                  dict(k=4, max_gens=2, max_edits=0, pool="p", sf2=False),
-                 dict(k=3, max_gens=2, max_edits=1, pool="x", rich=True), dict(k=4, max_gens=3, max_edits=1, pool="t", sf2=False)]
+                 dict(k=3, max_gens=2, max_edits=1, pool="x", rich=True), dict(k=3, max_gens=3, max_edits=1, pool="t", sf2=False), dict(k=4, max_gens=2, max_edits=0, pool="t", sf2=False)]
+    if os.environ.get("VERIF_ONLY_PLAN"):   # (timing aid when tuning bounds)
+        plans = [plans[int(os.environ["VERIF_ONLY_PLAN"])]]
     tot = {"states": 0, "transitions": 0}
     runs = []
     for pl in plans:
